@@ -1,8 +1,12 @@
 /-
   C20 — staging clean-up removes only what is already delivered (receiver part:
-  stage/local.go cleanStrays, after `fix:` the companion is read through its own path).
+  stage/local.go cleanStrays, after `fix:` the companion is read through its own path, after
+  `fix: cleanStrays removed the companion of a newer version in progress` and after `fix: the
+  stray cleaner removed the partial of a retransmission of a file that failed validation`).
 -/
 import StsModel.Lemmas.StageLoggedHash
+import StsModel.Lemmas.StageDurable
+import StsModel.Props.C01
 
 namespace Sts.Stage
 
@@ -33,13 +37,14 @@ def cmpHashOr (s : State) (n : Name) : String :=
   match s.disk.cmp n with | some c => c.hash | none => ""
 
 /-- `strays_decision` (partial file): the exact condition under which cleanStrays removes
-    `<n>.part`. -/
+    `<n>.part` (after `fix:` "the stray cleaner removed the partial of a retransmission of a
+    file that failed validation": state failed = 2 is on the log side). -/
 theorem strays_decision_part (s : State) (now : Int) (n : Name) :
     (cleanDecision s now n).1 = true ↔
       ∃ i, s.disk.part n = some i ∧ now - s.disk.mtime i ≥ 86400 ∧
-        ((stateNum s.mem n > 0 ∧
+        (((stateNum s.mem n > 0 ∧ stateNum s.mem n ≠ 2) ∧
             (s.disk.cmp n = none ∨ ∃ c, s.disk.cmp n = some c ∧ c.hash = cachedHash s n)) ∨
-         (stateNum s.mem n ≤ 0 ∧
+         (¬ (stateNum s.mem n > 0 ∧ stateNum s.mem n ≠ 2) ∧
             wasReceived s.disk.log n (cmpHashOr s n)
               (s.disk.mtime i - ((now - s.disk.mtime i) / 60) * 3600) now = true)) := by
   simp only [cleanDecision, cachedHash, cmpHashOr]
@@ -53,34 +58,39 @@ theorem strays_decision_part (s : State) (now : Int) (n : Name) :
       · intro h; simp at h
       · intro h; omega
     · simp only [hage, if_false]
-      by_cases hst : stateNum s.mem n > 0
-      · simp only [hst, if_true]
+      have hage' : now - s.disk.mtime i ≥ 86400 := by omega
+      by_cases hst : stateNum s.mem n > 0 ∧ stateNum s.mem n ≠ 2
+      · rw [if_pos hst]
         cases hc : s.disk.cmp n with
-        | none => simp; omega
+        | none => simp [hage', hst]
         | some c =>
           simp only [decide_eq_true_eq, Option.some.injEq, exists_eq_left', reduceCtorEq, false_or]
           constructor
-          · intro h; exact ⟨by omega, Or.inl ⟨trivial, h⟩⟩
+          · intro h; exact ⟨hage', Or.inl ⟨hst, h⟩⟩
           · intro h
             rcases h.2 with h' | h'
             · exact h'.2
-            · omega
-      · simp only [hst, if_false]
+            · exact absurd hst h'.1
+      · rw [if_neg hst]
         generalize wasReceived _ _ _ _ _ = w
         cases w
-        · simp
-        · simp; omega
+        · constructor
+          · intro h; simp at h
+          · rintro ⟨_, ⟨h1, _⟩ | ⟨_, h2⟩⟩
+            · exact absurd h1 hst
+            · cases h2
+        · simp [hage', hst]
 
 /-- `strays_decision` (companion), after `fix: cleanStrays removed the companion of a newer
     version in progress`: the exact condition under which cleanStrays removes `<n>.cmp`: a
     companion exists beside an old partial and either the cache state is `logged` WITH THE
-    COMPANION'S HASH, or the state is unknown / received and the log has a record of the
-    name with the companion's hash. -/
+    COMPANION'S HASH, or the state is unknown / received / failed and the log has a record of
+    the name with the companion's hash. -/
 theorem strays_decision_cmp (s : State) (now : Int) (n : Name) :
     (cleanDecision s now n).2 = true ↔
       ∃ i, s.disk.part n = some i ∧ now - s.disk.mtime i ≥ 86400 ∧
         ((stateNum s.mem n = 4 ∧ ∃ c, s.disk.cmp n = some c ∧ c.hash = cachedHash s n) ∨
-         (stateNum s.mem n ≤ 0 ∧ s.disk.cmp n ≠ none ∧
+         (¬ (stateNum s.mem n > 0 ∧ stateNum s.mem n ≠ 2) ∧ s.disk.cmp n ≠ none ∧
             wasReceived s.disk.log n (cmpHashOr s n)
               (s.disk.mtime i - ((now - s.disk.mtime i) / 60) * 3600) now = true)) := by
   simp only [cleanDecision, cmpHashOr, cachedHash]
@@ -94,42 +104,40 @@ theorem strays_decision_cmp (s : State) (now : Int) (n : Name) :
       · intro h; simp at h
       · intro h; omega
     · simp only [hage, if_false]
-      by_cases hst : stateNum s.mem n > 0
-      · simp only [hst, if_true]
+      have hage' : now - s.disk.mtime i ≥ 86400 := by omega
+      by_cases hst : stateNum s.mem n > 0 ∧ stateNum s.mem n ≠ 2
+      · rw [if_pos hst]
         cases hc : s.disk.cmp n with
-        | none => simp
+        | none => simp [hst]
         | some c =>
           simp only [Option.isSome_some, Bool.and_true, Bool.and_eq_true, decide_eq_true_eq,
             Option.some.injEq, exists_eq_left', ne_eq, reduceCtorEq, not_false_eq_true, true_and]
           constructor
-          · intro h; exact ⟨by omega, Or.inl ⟨h.2, h.1⟩⟩
+          · intro h; exact ⟨hage', Or.inl ⟨h.2, h.1⟩⟩
           · intro h
             rcases h.2 with h' | h'
             · exact ⟨h'.2, h'.1⟩
-            · omega
-      · simp only [hst, if_false]
+            · exact absurd hst h'.1
+      · rw [if_neg hst]
+        have h4 : stateNum s.mem n ≠ 4 := by intro h; apply hst; omega
         generalize wasReceived _ _ _ _ _ = w
         cases w
-        · simp; omega
-        · simp [Option.isSome_iff_ne_none]
-          exact ⟨fun h => ⟨by omega, Or.inr ⟨by omega, h⟩⟩, fun h => by
-            rcases h.2 with h' | h'
-            · omega
-            · exact h'.2⟩
+        · simp [h4]
+        · simp [Option.isSome_iff_ne_none, hage', hst, h4]
 
 /-- `strays_decision`: both halves of the decision -/
 theorem strays_decision (s : State) (now : Int) (n : Name) :
     ((cleanDecision s now n).1 = true ↔
       ∃ i, s.disk.part n = some i ∧ now - s.disk.mtime i ≥ 86400 ∧
-        ((stateNum s.mem n > 0 ∧
+        (((stateNum s.mem n > 0 ∧ stateNum s.mem n ≠ 2) ∧
             (s.disk.cmp n = none ∨ ∃ c, s.disk.cmp n = some c ∧ c.hash = cachedHash s n)) ∨
-         (stateNum s.mem n ≤ 0 ∧
+         (¬ (stateNum s.mem n > 0 ∧ stateNum s.mem n ≠ 2) ∧
             wasReceived s.disk.log n (cmpHashOr s n)
               (s.disk.mtime i - ((now - s.disk.mtime i) / 60) * 3600) now = true))) ∧
     ((cleanDecision s now n).2 = true ↔
       ∃ i, s.disk.part n = some i ∧ now - s.disk.mtime i ≥ 86400 ∧
         ((stateNum s.mem n = 4 ∧ ∃ c, s.disk.cmp n = some c ∧ c.hash = cachedHash s n) ∨
-         (stateNum s.mem n ≤ 0 ∧ s.disk.cmp n ≠ none ∧
+         (¬ (stateNum s.mem n > 0 ∧ stateNum s.mem n ≠ 2) ∧ s.disk.cmp n ≠ none ∧
             wasReceived s.disk.log n (cmpHashOr s n)
               (s.disk.mtime i - ((now - s.disk.mtime i) / 60) * 3600) now = true))) :=
   ⟨strays_decision_part s now n, strays_decision_cmp s now n⟩
@@ -141,7 +149,7 @@ theorem companion_only_with_partial (s : State) (now : Int) (n : Name)
   obtain ⟨i, hp, hage, hst⟩ := (strays_decision_cmp s now n).mp h
   rcases hst with ⟨hst, c, hc, hh⟩ | ⟨hst, _, hw⟩
   · exact (strays_decision_part s now n).mpr
-      ⟨i, hp, hage, Or.inl ⟨by omega, Or.inr ⟨c, hc, hh⟩⟩⟩
+      ⟨i, hp, hage, Or.inl ⟨⟨by omega, by omega⟩, Or.inr ⟨c, hc, hh⟩⟩⟩
   · exact (strays_decision_part s now n).mpr ⟨i, hp, hage, Or.inr ⟨hst, hw⟩⟩
 
 /-! ## what a removal implies about delivery -/
@@ -153,9 +161,10 @@ theorem wasReceived_record (log : List LogRec) (name hash : String) (start stop 
   obtain ⟨r, hr, ⟨hn, hh⟩, _⟩ := h
   exact ⟨r, hr, hn, hh⟩
 
-theorem stateNum_pos (m : Mem) (n : Name) (h : stateNum m n > 0) :
+/-- the states of the cleaner's cache branch: a validated copy exists -/
+theorem stateNum_held (m : Mem) (n : Name) (h : stateNum m n > 0 ∧ stateNum m n ≠ 2) :
     ∃ e, m.cache n = some e ∧
-      (e.state = .validated ∨ e.state = .failed ∨ e.state = .finalized ∨ e.state = .logged) := by
+      (e.state = .validated ∨ e.state = .finalized ∨ e.state = .logged) := by
   unfold stateNum at h
   split at h
   · rename_i e he
@@ -163,22 +172,31 @@ theorem stateNum_pos (m : Mem) (n : Name) (h : stateNum m n > 0) :
     cases hs : e.state <;> simp [hs, FState.num] at h ⊢
   · omega
 
-/-- `C20_only_delivered_partial` (decision level, any state). Full statement of C20: the
-    partial of `n` is removed only if the version (name, companion hash) is already delivered
-    or logged. What the code guarantees: the cache knows `n` with the SAME hash in a state
-    beyond `received`, or the receive log has a record of `n` with the companion's hash.
-    Missing for the full statement: the cache states `validated` and `failed` are not
-    "delivered" (see `clean_removes_retransmission`), and a companion with an empty hash
-    matches any record of the name. -/
-theorem C20_only_delivered_partial (s : State) (now : Int) (n : Name) (c : Cmp)
+/-- the other side: unknown, received or failed -/
+theorem stateNum_not_held (m : Mem) (n : Name) (h : ¬ (stateNum m n > 0 ∧ stateNum m n ≠ 2)) :
+    m.cache n = none ∨ ∃ e, m.cache n = some e ∧ (e.state = .received ∨ e.state = .failed) := by
+  unfold stateNum at h
+  split at h
+  · rename_i e he
+    refine Or.inr ⟨e, he, ?_⟩
+    cases hs : e.state <;> simp [hs, FState.num] at h ⊢
+  · rename_i he; exact Or.inl he
+
+/-- `C20_only_delivered` at decision level (any state, reachable or not): the partial of `n`
+    (companion `c`) is removed only if the cache knows `n` with the companion's hash in a state
+    in which a validated copy exists (validated, finalized, logged), or the cache state is
+    unknown / received / failed and the receive log has a record of `n` with the companion's
+    hash (any record of `n` when that hash is empty). -/
+theorem C20_only_delivered_decision (s : State) (now : Int) (n : Name) (c : Cmp)
     (hc : s.disk.cmp n = some c) (h : (cleanDecision s now n).1 = true) :
     (∃ e, s.mem.cache n = some e ∧ e.hash = c.hash ∧
-        (e.state = .validated ∨ e.state = .failed ∨ e.state = .finalized ∨ e.state = .logged)) ∨
-    (stateNum s.mem n ≤ 0 ∧ ∃ r ∈ s.disk.log, r.name = n ∧ (c.hash = "" ∨ r.hash = c.hash)) := by
+        (e.state = .validated ∨ e.state = .finalized ∨ e.state = .logged)) ∨
+    (¬ (stateNum s.mem n > 0 ∧ stateNum s.mem n ≠ 2) ∧
+      ∃ r ∈ s.disk.log, r.name = n ∧ (c.hash = "" ∨ r.hash = c.hash)) := by
   obtain ⟨i, _, _, h⟩ := (strays_decision_part s now n).mp h
   rcases h with ⟨hst, hcmp⟩ | ⟨hst, hw⟩
   · left
-    obtain ⟨e, he, hstate⟩ := stateNum_pos s.mem n hst
+    obtain ⟨e, he, hstate⟩ := stateNum_held s.mem n hst
     refine ⟨e, he, ?_, hstate⟩
     rcases hcmp with hcmp | ⟨c', hc', hh⟩
     · rw [hc] at hcmp; cases hcmp
@@ -192,10 +210,11 @@ theorem C20_only_delivered_partial (s : State) (now : Int) (n : Name) (c : Cmp)
 
 /-- the same for the companion: it is removed only in cache state `logged` with the
     companion's hash, or on a log record of the name with its hash. -/
-theorem C20_companion_removed_partial (s : State) (now : Int) (n : Name) (c : Cmp)
+theorem C20_companion_removed_decision (s : State) (now : Int) (n : Name) (c : Cmp)
     (hc : s.disk.cmp n = some c) (h : (cleanDecision s now n).2 = true) :
     (∃ e, s.mem.cache n = some e ∧ e.state = .logged ∧ e.hash = c.hash) ∨
-    (stateNum s.mem n ≤ 0 ∧ ∃ r ∈ s.disk.log, r.name = n ∧ (c.hash = "" ∨ r.hash = c.hash)) := by
+    (¬ (stateNum s.mem n > 0 ∧ stateNum s.mem n ≠ 2) ∧
+      ∃ r ∈ s.disk.log, r.name = n ∧ (c.hash = "" ∨ r.hash = c.hash)) := by
   obtain ⟨i, _, _, h⟩ := (strays_decision_cmp s now n).mp h
   rcases h with ⟨hst, c', hc', hh⟩ | ⟨hst, _, hw⟩
   · left
@@ -212,28 +231,84 @@ theorem C20_companion_removed_partial (s : State) (now : Int) (n : Name) (c : Cm
     have := wasReceived_record _ _ _ _ _ hw
     simpa [cmpHashOr, hc] using this
 
-/-- `C20_only_delivered` for reachable states: when cleanStrays removes the partial of `n`
-    (companion `c`), then
-    (a) the receive log has a record of `n` with hash `c.hash` (cache state finalized /
-        logged with that hash — `finalized_implies_logged_hash` — or the log branch), or
+/-- a complete copy of version (`n`, `h`) passed validation and is held in the staging area:
+    the cache entry of `n` is `validated` with hash `h` and `<n>.wait` exists -/
+def ValidatedHeld (s : State) (n : Name) (h : String) : Prop :=
+  ∃ e i, s.mem.cache n = some e ∧ e.state = .validated ∧ e.hash = h ∧ s.disk.wait n = some i
+
+/-- **`C20_only_delivered`** (every reachable state: any interleaving, crash point, restart;
+    after the repair, no residue in the cache states): when cleanStrays removes the partial of
+    `n` whose companion is `c`, then
+    (a) the receive log has a record of `n` with hash `c.hash` (cache state finalized / logged
+        with that hash — `finalized_implies_logged_hash` — or the log branch), or
     (b) the companion's hash is empty and the log has a record of the name, or
-    (c) RESIDUE: the cache holds `n` with hash `c.hash` in state `validated` (the complete
-        copy of this version is staged as `.wait`) or `failed` (it failed validation). -/
-theorem C20_only_delivered_reachable {H : Body → String} {s : State} (hr : Reachable H s)
+    (c) a complete copy of that very version passed validation and is held as `<n>.wait`
+        (cache state `validated` with the companion's hash; `validated_has_wait`).
+    The state `failed` is gone from the statement (it was the residue
+    `clean_removes_retransmission`, now about `cleanDecisionOrig`). -/
+theorem C20_only_delivered {H : Body → String} {s : State} (hr : Reachable H s)
     (now : Int) (n : Name) (c : Cmp)
     (hc : s.disk.cmp n = some c) (h : (cleanDecision s now n).1 = true) :
     LoggedV s.disk n c.hash ∨
     (c.hash = "" ∧ ∃ r ∈ s.disk.log, r.name = n) ∨
-    (∃ e, s.mem.cache n = some e ∧ e.hash = c.hash ∧ (e.state = .validated ∨ e.state = .failed)) := by
-  rcases C20_only_delivered_partial s now n c hc h with ⟨e, he, hh, hst⟩ | ⟨_, r, hr', hn, hh⟩
-  · rcases hst with hst | hst | hst | hst
-    · exact Or.inr (Or.inr ⟨e, he, hh, Or.inl hst⟩)
-    · exact Or.inr (Or.inr ⟨e, he, hh, Or.inr hst⟩)
+    ValidatedHeld s n c.hash := by
+  rcases C20_only_delivered_decision s now n c hc h with ⟨e, he, hh, hst⟩ | ⟨_, r, hr', hn, hh⟩
+  · rcases hst with hst | hst | hst
+    · obtain ⟨i, hi⟩ := validated_has_wait hr n e he hst
+      exact Or.inr (Or.inr ⟨e, i, he, hst, hh, hi⟩)
     · left; rw [← hh]; exact finalized_implies_logged_hash hr n e he (Or.inl hst)
     · left; rw [← hh]; exact finalized_implies_logged_hash hr n e he (Or.inr hst)
   · rcases hh with hh | hh
     · exact Or.inr (Or.inl ⟨hh, r, hr', hn⟩)
     · exact Or.inl ⟨r, hr', hn, hh⟩
+
+/-- … and in runs without stale writers and without corruption of validated data
+    (`ReachableOk` of Props/C01) the held copy of clause (c) has the bytes of that version:
+    `H` of the body of `<n>.wait` is the companion's hash. -/
+theorem C20_only_delivered_ok {H : Body → String} {s : State} (hr : ReachableOk H s)
+    (now : Int) (n : Name) (c : Cmp)
+    (hc : s.disk.cmp n = some c) (h : (cleanDecision s now n).1 = true) :
+    LoggedV s.disk n c.hash ∨
+    (c.hash = "" ∧ ∃ r ∈ s.disk.log, r.name = n) ∨
+    (∃ e i, s.mem.cache n = some e ∧ e.state = .validated ∧ e.hash = c.hash ∧
+      s.disk.wait n = some i ∧ H (s.disk.body i) = c.hash) := by
+  rcases C20_only_delivered hr.reachable now n c hc h with h1 | h2 | ⟨e, i, he, hst, hh, hi⟩
+  · exact Or.inl h1
+  · exact Or.inr (Or.inl h2)
+  · exact Or.inr (Or.inr ⟨e, i, he, hst, hh, hi, hh ▸ wait_inv hr n i e hi he hst⟩)
+
+/-- name level, with or without companion (a partial WITHOUT companion has nothing on record:
+    no hash, no acknowledged range — this is all that can be said about it): a partial is
+    removed only if the receive log has a record of its name, or a validated copy of the name
+    is held as `<n>.wait`. -/
+theorem C20_partial_name_delivered {H : Body → String} {s : State} (hr : Reachable H s)
+    (now : Int) (n : Name) (h : (cleanDecision s now n).1 = true) :
+    (∃ r ∈ s.disk.log, r.name = n) ∨
+    (∃ e i, s.mem.cache n = some e ∧ e.state = .validated ∧ s.disk.wait n = some i) := by
+  obtain ⟨i, _, _, h⟩ := (strays_decision_part s now n).mp h
+  rcases h with ⟨hst, _⟩ | ⟨_, hw⟩
+  · obtain ⟨e, he, hstate⟩ := stateNum_held s.mem n hst
+    rcases hstate with hst | hst | hst
+    · obtain ⟨j, hj⟩ := validated_has_wait hr n e he hst
+      exact Or.inr ⟨e, j, he, hst, hj⟩
+    · obtain ⟨r, hr', hn, _⟩ := finalized_implies_logged_hash hr n e he (Or.inl hst)
+      exact Or.inl ⟨r, hr', hn⟩
+    · obtain ⟨r, hr', hn, _⟩ := finalized_implies_logged_hash hr n e he (Or.inr hst)
+      exact Or.inl ⟨r, hr', hn⟩
+  · obtain ⟨r, hr', hn, _⟩ := wasReceived_record _ _ _ _ _ hw
+    exact Or.inl ⟨r, hr', hn⟩
+
+/-- `C20_failed_needs_log`: in cache state `failed` nothing is removed unless the
+    receive log has a record of the name with the companion's hash (the repaired corner). -/
+theorem C20_failed_needs_log (s : State) (now : Int) (n : Name) (c : Cmp)
+    (hst : stateOf s.mem n = some .failed)
+    (hc : s.disk.cmp n = some c) (h : (cleanDecision s now n).1 = true) :
+    ∃ r ∈ s.disk.log, r.name = n ∧ (c.hash = "" ∨ r.hash = c.hash) := by
+  rcases C20_only_delivered_decision s now n c hc h with ⟨e, he, _, hs⟩ | ⟨_, h⟩
+  · simp only [stateOf, he, Option.map_some, Option.some.injEq] at hst
+    rw [hst] at hs
+    simp at hs
+  · exact h
 
 /-- `C20_companion_only_delivered` (reachable states, after the repair): a companion is
     removed only if the receive log has a record of its version (name, hash) — or its hash is
@@ -242,7 +317,7 @@ theorem C20_companion_only_delivered {H : Body → String} {s : State} (hr : Rea
     (now : Int) (n : Name) (c : Cmp)
     (hc : s.disk.cmp n = some c) (h : (cleanDecision s now n).2 = true) :
     LoggedV s.disk n c.hash ∨ (c.hash = "" ∧ ∃ r ∈ s.disk.log, r.name = n) := by
-  rcases C20_companion_removed_partial s now n c hc h with ⟨e, he, hst, hh⟩ | ⟨_, r, hr', hn, hh⟩
+  rcases C20_companion_removed_decision s now n c hc h with ⟨e, he, hst, hh⟩ | ⟨_, r, hr', hn, hh⟩
   · left; rw [← hh]; exact finalized_implies_logged_hash hr n e he (Or.inr hst)
   · rcases hh with hh | hh
     · exact Or.inr ⟨hh, r, hr', hn⟩
@@ -293,7 +368,7 @@ theorem clean_cut_never_hurts_validated (s : State) (now : Int) (names : List Na
     exact ⟨n, h⟩) s
   exact ⟨this.1, this.2.1, this.2.2.1, this.2.2.2.1⟩
 
-/-! ## witnesses: the residue is real -/
+/-! ## witnesses: the defects the repairs remove were real -/
 
 /-- hash function of the witnesses: every body hashes to "h" -/
 def witH : Body → String := fun _ => "h"
@@ -307,17 +382,97 @@ def witFailedEvs : List Ev :=
    .op (.prepare "f" 4 10), .op (.recvOpen 2 "f"), .op (.recvWrite 2 0 [1, 2] 10),
    .op (.record "f" ⟨"", "", 4, "X"⟩ 0 2 10)]
 
-/-- `clean_removes_retransmission` (residue `failed` of C20, F6 aftermath for C09): in a
-    reachable state the cleaner removes the `.part` of a retransmission in progress — the
-    version was never delivered nor logged — and keeps the companion, which goes on
-    claiming `[0,2)` although no staged partial holds it. -/
+/-- cleanStrays' decision BEFORE `fix: the stray cleaner removed the partial of a
+    retransmission of a file that failed validation` (the code as found: `if fileState >
+    stateReceived {`, an ordinal test that is also true for `stateFailed` = 2); kept to state
+    the defect the commit repairs. -/
+def cleanDecisionOrig (s : State) (now : Int) (n : Name) : Bool × Bool :=
+  match s.disk.part n with
+  | none => (false, false)
+  | some i =>
+    let age := now - s.disk.mtime i
+    if age < 86400 then (false, false)
+    else
+      let comp := s.disk.cmp n
+      let st := stateNum s.mem n
+      let fileHash := match s.mem.cache n with | some e => e.hash | none => ""
+      if st > 0 then
+        let del := (match comp with | none => true | some c => decide (c.hash = fileHash))
+        (del, del && comp.isSome && decide (st = 4))
+      else
+        let beg := s.disk.mtime i - (age / 60) * 3600
+        let hash := match comp with | some c => c.hash | none => ""
+        if wasReceived s.disk.log n hash beg now then (true, comp.isSome) else (false, false)
+
+def cleanStrayOneOrig (s : State) (now : Int) (n : Name) : List Prim :=
+  (if (cleanDecisionOrig s now n).1 then [Prim.rmPart n] else []) ++
+  (if (cleanDecisionOrig s now n).2 then [Prim.rmCmp n] else [])
+
+/-- cleanStrays as found (one pass over the walked names) -/
+def cleanStraysEffectsOrig (s : State) (now : Int) (names : List Name) : List Prim :=
+  names.flatMap (cleanStrayOneOrig s now)
+
+/-- the repair changes the decision in cache state `failed` only -/
+theorem cleanDecision_vs_orig (s : State) (now : Int) (n : Name)
+    (h : stateOf s.mem n ≠ some .failed) : cleanDecision s now n = cleanDecisionOrig s now n := by
+  have h2 : stateNum s.mem n ≠ 2 := by
+    intro h2
+    apply h
+    unfold stateNum at h2
+    unfold stateOf
+    split at h2
+    · rename_i e he
+      rw [he]
+      cases hs : e.state <;> simp [hs, FState.num] at h2 ⊢
+    · omega
+  simp only [cleanDecision, cleanDecisionOrig]
+  cases s.disk.part n with
+  | none => rfl
+  | some i =>
+    simp only
+    split
+    · rfl
+    · by_cases hst : stateNum s.mem n > 0
+      · rw [if_pos hst, if_pos ⟨hst, h2⟩]; rfl
+      · rw [if_neg hst, if_neg (fun h => hst h.1)]; rfl
+
+/-- … where the decision as found ignored the receive log and compared with the hash of the
+    FAILED copy -/
+theorem cleanDecisionOrig_failed (s : State) (now : Int) (n : Name) (i : Nat) (e : Entry)
+    (hp : s.disk.part n = some i) (hage : now - s.disk.mtime i ≥ 86400)
+    (he : s.mem.cache n = some e) (hst : e.state = .failed) :
+    (cleanDecisionOrig s now n).1 =
+      (match s.disk.cmp n with | none => true | some c => decide (c.hash = e.hash)) := by
+  have h2 : stateNum s.mem n > 0 := by simp [stateNum, he, hst, FState.num]
+  have hage' : ¬ now - s.disk.mtime i < 86400 := by omega
+  simp only [cleanDecisionOrig, hp, hage', if_false, h2, if_true, he]
+
+/-- `clean_removes_retransmission` (the defect, violates C20 "never deletes data of a file that
+    is still being received"; F6 aftermath for C09): in a reachable state the cleaner AS FOUND
+    removed the `.part` of a retransmission in progress — the version was never validated,
+    delivered nor logged — and kept the companion, which went on claiming `[0,2)` although no
+    staged partial held it. Confirmed on the real code by the differential harness (oracle
+    `clean-removed-undelivered`); repaired in /repo. -/
 theorem clean_removes_retransmission :
     let s := runEvs witH init witFailedEvs
-    let s' := step witH s (.op (.cleanStrays 86410 ["f"]))
-    stateOf s.mem "f" = some .failed ∧ s.disk.log = [] ∧
-    (s.disk.cmp "f").map (·.parts) = some [⟨0, 2⟩] ∧ s.disk.part "f" ≠ none ∧
-    cleanDecision s 86410 "f" = (true, false) ∧
+    let s' := run s (cleanStraysEffectsOrig s 86410 ["f"])
+    Reachable witH s ∧
+    stateOf s.mem "f" = some .failed ∧ s.disk.log = [] ∧ s.disk.wait "f" = none ∧
+    (s.disk.cmp "f").map (fun c => (c.hash, c.parts)) = some ("X", [⟨0, 2⟩]) ∧
+    s.disk.part "f" ≠ none ∧
+    cleanDecisionOrig s 86410 "f" = (true, false) ∧
     s'.disk.part "f" = none ∧ (s'.disk.cmp "f").map (·.parts) = some [⟨0, 2⟩] := by
+  refine ⟨⟨witFailedEvs, rfl⟩, ?_⟩
+  decide
+
+/-- … and the repaired cleaner leaves the partial (and its companion) alone: the log has no
+    record of version "X" -/
+theorem clean_keeps_retransmission :
+    let s := runEvs witH init witFailedEvs
+    let s' := step witH s (.op (.cleanStrays 86410 ["f"]))
+    cleanDecision s 86410 "f" = (false, false) ∧
+    s'.disk.part "f" = s.disk.part "f" ∧ s.disk.part "f" ≠ none ∧
+    (s'.disk.cmp "f").map (·.parts) = some [⟨0, 2⟩] := by
   decide
 
 /-- version "h" of `g` is delivered; after a restart the cache learns it from the log
@@ -330,9 +485,9 @@ def witLoggedEvs : List Ev :=
    .op (.record "g" ⟨"", "", 4, "Y"⟩ 0 2 200)]
 
 /-- cleanStrays' decision BEFORE `fix: cleanStrays removed the companion of a newer version
-    in progress` (`deleteCmp = compExists && fileState == stateLogged`, no hash comparison);
-    kept to state the defect the commit repairs. -/
-def cleanDecisionOrig (s : State) (now : Int) (n : Name) : Bool × Bool :=
+    in progress` as well (`deleteCmp = compExists && fileState == stateLogged`, no hash
+    comparison); kept to state the defect that commit repaired. -/
+def cleanDecisionOrigCmp (s : State) (now : Int) (n : Name) : Bool × Bool :=
   match s.disk.part n with
   | none => (false, false)
   | some i =>
@@ -350,11 +505,11 @@ def cleanDecisionOrig (s : State) (now : Int) (n : Name) : Bool × Bool :=
         let hash := match comp with | some c => c.hash | none => ""
         if wasReceived s.disk.log n hash beg now then (true, comp.isSome) else (false, false)
 
-/-- the repair changes nothing but the companion flag in cache states beyond `received` -/
-theorem cleanDecision_vs_orig (s : State) (now : Int) (n : Name) :
-    (cleanDecision s now n).1 = (cleanDecisionOrig s now n).1 ∧
-    ((cleanDecision s now n).2 = true → (cleanDecisionOrig s now n).2 = true) := by
-  simp only [cleanDecision, cleanDecisionOrig]
+/-- that repair changed nothing but the companion flag in cache states beyond `received` -/
+theorem cleanDecisionOrig_vs_origCmp (s : State) (now : Int) (n : Name) :
+    (cleanDecisionOrig s now n).1 = (cleanDecisionOrigCmp s now n).1 ∧
+    ((cleanDecisionOrig s now n).2 = true → (cleanDecisionOrigCmp s now n).2 = true) := by
+  simp only [cleanDecisionOrig, cleanDecisionOrigCmp]
   cases s.disk.part n with
   | none => simp
   | some i =>
@@ -362,8 +517,8 @@ theorem cleanDecision_vs_orig (s : State) (now : Int) (n : Name) :
     split
     · simp
     · split
-      · simp only [Bool.and_eq_true, decide_eq_true_eq]
-        exact ⟨rfl, fun h => ⟨h.1.2, h.2⟩⟩
+      · simp only [Bool.and_eq_true, decide_eq_true_eq, true_and]
+        exact fun h => ⟨h.1.2, h.2⟩
       · exact ⟨rfl, fun h => h⟩
 
 /-- `clean_removes_live_companion_orig` (the defect, violates C20 "same name and hash"): in
@@ -377,7 +532,7 @@ theorem clean_removes_live_companion_orig :
     (s.mem.cache "g").map (fun e => (e.state, e.hash)) = some (.logged, "h") ∧
     (s.disk.cmp "g").map (fun c => (c.hash, c.parts)) = some ("Y", [⟨0, 2⟩]) ∧
     s.disk.part "g" ≠ none ∧
-    cleanDecisionOrig s 86600 "g" = (false, true) := by
+    cleanDecisionOrigCmp s 86600 "g" = (false, true) := by
   decide
 
 /-- … and the repaired decision leaves both the partial and its companion alone -/
@@ -401,9 +556,43 @@ example :
     cleanDecision s 86600 "g" = (true, true) ∧ LoggedV s.disk "g" "h" := by
   refine ⟨by decide, ⟨⟨"g", "", "h", 2, 5, ""⟩, by decide, rfl, rfl⟩⟩
 
-example : (cleanStraysEffects (runEvs witH init witFailedEvs) 86410 ["f"]) = [Prim.rmPart "f"] := by
+/-- the failed-state look-up can succeed: version "h" of `g` was delivered in an earlier run
+    (log record, cache empty after the restart); it is sent again, the staged bytes are
+    corrupted so that validation fails (state `failed`, hash "h"), and a further
+    retransmission stalls: its stale partial and companion are removed because version "h"
+    IS in the receive log (clause (a) of `C20_only_delivered` through the log branch). -/
+example :
+    let s := runEvs (fun b => if b = [7, 8] then "h" else "bad") init
+      [.op (.prepare "g" 2 0), .op (.recvOpen 1 "g"), .op (.recvWrite 1 0 [7, 8] 0),
+       .op (.record "g" ⟨"", "", 2, "h"⟩ 0 2 0), .op (.process "g" 1), .op (.finh "g" 5), .crash,
+       .op (.prepare "g" 2 200), .op (.recvOpen 2 "g"), .op (.recvWrite 2 0 [7, 9] 200),
+       .op (.record "g" ⟨"", "", 2, "h"⟩ 0 2 200), .op (.process "g" 201),
+       .op (.prepare "g" 2 300), .op (.recvOpen 3 "g"), .op (.recvWrite 3 0 [7] 300),
+       .op (.record "g" ⟨"", "", 2, "h"⟩ 0 1 300)]
+    stateOf s.mem "g" = some .failed ∧ cleanDecision s 86800 "g" = (true, true) ∧
+    LoggedV s.disk "g" "h" := by
+  refine ⟨by decide, by decide, ⟨⟨"g", "", "h", 2, 5, ""⟩, by decide, rfl, rfl⟩⟩
+
+/-- clause (c): version "h" of `a` is validated and held (its predecessor "p" has not
+    arrived); the file is announced again and nothing more arrives: the day-old partial is
+    removed, the complete validated copy stays as `a.wait` -/
+example :
+    let s := runEvs witH init
+      [.op (.prepare "a" 2 0), .op (.recvOpen 1 "a"), .op (.recvWrite 1 0 [7, 8] 0),
+       .op (.record "a" ⟨"", "p", 2, "h"⟩ 0 2 0), .op (.process "a" 1), .op (.finh "a" 2),
+       .op (.prepare "a" 2 10)]
+    cleanDecision s 86500 "a" = (true, false) ∧ ValidatedHeld s "a" "h" ∧
+    (s.disk.cmp "a").map (·.hash) = some "h" ∧ s.disk.log = [] := by
+  refine ⟨by decide, ⟨_, 0, rfl, by decide, by decide, by decide⟩, by decide, by decide⟩
+
+example : (cleanStraysEffectsOrig (runEvs witH init witFailedEvs) 86410 ["f"]) = [Prim.rmPart "f"] := by
+  simp only [cleanStraysEffectsOrig, cleanStrayOneOrig, List.flatMap_cons, List.flatMap_nil]
+  have : cleanDecisionOrig (runEvs witH init witFailedEvs) 86410 "f" = (true, false) := by decide
+  simp [this]
+
+example : (cleanStraysEffects (runEvs witH init witFailedEvs) 86410 ["f"]) = [] := by
   simp only [cleanStraysEffects, cleanStrayOne, List.flatMap_cons, List.flatMap_nil]
-  have : cleanDecision (runEvs witH init witFailedEvs) 86410 "f" = (true, false) := by decide
+  have : cleanDecision (runEvs witH init witFailedEvs) 86410 "f" = (false, false) := by decide
   simp [this]
 
 end Sts.Stage
